@@ -18,14 +18,15 @@ LEVEL = "model_checking"
 ALPHA_Q = ("", "nan", "inf", "-inf", "0.5", "2.5")
 ALPHA_T = ("", "nan", "inf", "-inf", "0.0", "0.5", "1.0", "2.5")
 RULE = (
-    "all tables with (subjects, groups, metrics) in {(3,2,1), (3,1,2), (4,1,1)} over the cell alphabet {missing, nan, inf, -inf, 0.5, 2.5} (thorough: + 0.0, 1.0) and (2,2,2) over {missing, nan, -inf, 0.5, 2.5}^8 (thorough: 6 symbols); "
+    "all (4,1,1) tables over {missing, 1e8, 1e8+1, 1e8+4, 98765432.1, -0.5} (large offset, small spread); all tables with (subjects, groups, metrics) in {(3,2,1), (3,1,2), (4,1,1)} over the cell alphabet {missing, nan, inf, -inf, 0.5, 2.5} (thorough: + 0.0, 1.0) and (2,2,2) over {missing, nan, -inf, 0.5, 2.5}^8 (thorough: 6 symbols); "
     "the table sets are closed under row permutation, so every row order is included; each table through from_file and through the constructor. "
     "non-trivial = some (group, metric) column mixes finite and non-finite cells; distinct by table"
 )
 ASSUMPTIONS = ["cells without any finite value are outside the statement: get_summary on them and the across-groups summary of tables containing such a column may raise and are not judged", "statistics compared to 1e-12"]
 BUDGET = {"quick": 200, "thorough": 1500}
-SHAPES_Q = [((3, 2, 1), ALPHA_Q), ((3, 1, 2), ALPHA_Q), ((4, 1, 1), ALPHA_Q), ((2, 2, 2), ("", "nan", "-inf", "0.5", "2.5"))]
-SHAPES_T = [((3, 2, 1), ALPHA_T), ((3, 1, 2), ALPHA_T), ((4, 1, 1), ALPHA_T), ((2, 2, 2), ALPHA_Q), ((5, 1, 1), ALPHA_Q)]
+ALPHA_BIG = ("", "100000000.0", "100000001.0", "100000004.0", "98765432.1", "-0.5")
+SHAPES_Q = [((4, 1, 1), ALPHA_BIG), ((3, 2, 1), ALPHA_Q), ((3, 1, 2), ALPHA_Q), ((4, 1, 1), ALPHA_Q), ((2, 2, 2), ("", "nan", "-inf", "0.5", "2.5"))]
+SHAPES_T = [((4, 1, 1), ALPHA_BIG), ((3, 2, 1), ALPHA_BIG), ((3, 2, 1), ALPHA_T), ((3, 1, 2), ALPHA_T), ((4, 1, 1), ALPHA_T), ((2, 2, 2), ALPHA_Q), ((5, 1, 1), ALPHA_Q)]
 
 
 def blocks(tier):
@@ -123,7 +124,7 @@ def run_case(case, acc):
                 ok = False
                 continue
             avgs[(g, m)] = exp["avg"]
-            bad = [k for k in exp if not rm.close(float(got[k]), exp[k], rel=1e-12)]
+            bad = [k for k in exp if not rm.close(float(got[k]), exp[k], rel=1e-12, abs_=64 * 2.22e-16 * max(1.0, max(abs(v) for v in fin)))]
             if bad:
                 has_ninf = any(table[s][groups.index(g) * nm + metrics.index(m)] == "-inf" for s in range(ns))
                 acc.violation(f"C20:{how}:summary:{'neg_inf' if has_ninf else 'values'}", case, f"{how}: summary of ({g},{m}) = {got} but the finite recorded values {fin} give {exp} in\n{text}")
@@ -151,6 +152,18 @@ def run_case(case, acc):
                 if all(v is not None for v in c):
                     ValueSummary(st.get(g, m))
                 st.get(g, m, remove_nones=True)
+            for m in metrics:
+                st.get_across_groups(m)
+            # ... and the summaries themselves must still be those of the recorded values
+            for (g, m), c in col.items():
+                fin = [v for v in c if v is not None]
+                if fin:
+                    sm = st.get_summary(g, m)
+                    exp = rm.summary_stats(fin)
+                    got = dict(avg=sm.avg, std=sm.std, min=sm.min, max=sm.max)
+                    if [k for k in exp if not rm.close(float(got[k]), exp[k], rel=1e-12, abs_=64 * 2.22e-16 * max(1.0, max(abs(v) for v in fin)))]:
+                        acc.violation(f"C20:{how}:summary_after_queries", case, f"{how}: after get_across_groups / ValueSummary queries the summary of ({g},{m}) = {got}, the finite recorded values {fin} give {exp} in\n{text}")
+                        ok = False
             for s in range(ns):
                 one = st.get_one_subject(subjects[s])
                 for g in groups:
